@@ -14,7 +14,7 @@ COMMON_NOTE = ("Trusted: Lean 4.33 kernel (+ propext, Classical.choice, Quot.sou
 P = {
     "C01": ("proof", "Generator theorem (every validated file, every token sequence of any length, any payload type; C01_every_grammar): whenever Encode.encode, validated_ast_to_machine (FIRST fixpoint, closures, worklist with LALR merging by core, renumbering) and machine_to_table succeed in the model, the emitted parse loop over the emitted tables never panics and, whenever it ends, returns Ok iff the token kinds are derivable from the start symbol. Proof chain (≈3 500 lines, Proofs/{First,Closure,Cores,Build,Normalize,Generator,TableCells,Assemble,Universal,Encode}): FIRST map closed; closures closed and kernel-generated; worklist invariants through merge/append; normalisation is an isomorphism; table cells = item demands / transitions; hence machine+table pass every check of the validator (C01_generator_passes_validator), whose soundness (validB_sound ⇒ Sound ∧ Complete) and the generic LR theorems (C01_accepts_iff, C01_sentences_terminate, C01_no_panic_and_sound, C01_complete) finish. "
             "Tie to the code: the model equals the implementation at every stage (tokens … machine, table, text) on every generated grammar; independently the validator is run on the machine and table the *implementation* built, and the compiled emitted parsers are run against an Earley recogniser and the model driver. "
-            "Residue: halting of the emitted driver on non-sentences is tested (watchdog), not proved (the generator's own loops are proved to terminate: C07_generator_total); the name↔rank coding of symbols (Encode) is covered by the stage correspondence.",
+            "Residue: halting of the emitted driver on non-sentences is tested (watchdog), not proved (the generator's own loops are proved to terminate: C07_generator_total). The coded grammar is the declared grammar under an injective renaming name ↦ rank (C01_coding_faithful).",
             "§0, §6.1–6.2, §7 C01", "generator theorem for every grammar + stage-by-stage model=implementation + validator on the implementation's automata + compiled-parser correspondence"),
     "C02": ("proof", "Theorems: for every validated file for which the generator stages succeed, whatever the emitted loop returns with Ok is a derivation tree of the grammar whose leaves are the input tokens themselves (payloads opaque), each once and in order, and it is the only derivation tree of that input (C02_every_grammar, via the generator theorem); the same for every validB-accepted automaton (C02_faithful, C02_tree, C02_that_tree, C02_unique). "
             "The user-visible value (userView, derive(Debug) rendering) is compared with the compiled parser's Ok value and with the Earley oracle's unique tree projected through the declared fieldsets; a panic on a sentence is a violation.",
@@ -64,7 +64,7 @@ P = {
             "§7 C16", "scanner theorems + re-layout differential"),
     "C17": ("proof", "Theorems, for every validated file for which the generator stages succeed: the item sets of the generated automaton, lookaheads included, are exactly the least fixed point of the LALR(1) propagation rules over its transition graph — augmented initial item with end of input; [B → ·γ, b] for every b ∈ FIRST(β a) in the state of [A → α·Bβ, a]; the dot moved along transitions, contributions of all predecessor states united (C17_items_exact); no two states have the same core and transitions are functional (C17_one_state_per_core); an ACTION cell is non-error iff an item of its state demands it there (reduce exactly on the item's lookaheads, accept on end of input, shift to the transition target), GOTO cells are exactly the nonterminal transitions, Err/None elsewhere (C17_cells, C17_empty_table). The FIRST map used by the rules is proved closed under the FIRST equations (complete) and sound (every terminal in FIRST(B) begins a sentential form derived from B; nullable marks are true). "
             "That is the textbook definition: the generated automaton is the canonical LR(1) collection merged by core — every canonical state lies inside exactly one machine state with the same cores, every item of a machine state (lookahead included) lies in a canonical state with that core, every machine state merges at least one canonical state (C17_is_lalr1, Proofs/Canonical). "
-            "Residue: the name↔rank coding (stage correspondence); independently, tables read back from the emitted text are compared, modulo the renumbering from the start state, with the tables of an independent specification-side LALR(1) construction on every accepted grammar.",
+            "Independently, tables read back from the emitted text are compared, modulo the renumbering from the start state, with the tables of an independent specification-side LALR(1) construction on every accepted grammar.",
             "§6.2, §6.3, §7 C17", "generated automaton = canonical LR(1) merged by core, exact cells, for every grammar + LALR(1) table oracle on emitted text"),
     "C18": ("proof", "Full: for every history of new/from_iter/insert/extend over any type with a lawful total order: strictly ascending vector, membership = the mathematical set, contains decides membership, iteration yields each element once ascending, equal element sets ⇒ equal vectors (C18_sorted, _refines, _contains, _iter, _ext). "
             "std sort/dedup/binary_search are modelled by contract; kiki::Oset is compared with BTreeSet and with the model on random histories over u32, (u8,u8), String.",
